@@ -49,7 +49,7 @@ discipline.  Miri / AddressSanitizer runs of the same cases (`run_sanitizer.sh`)
 are the search engine for a concrete report, not the verdict.
 
 Obligations (`props/C17.py`): `sites_covered`, `unsafe_sites_covered`,
-`unsafe_accounts_wellformed`, `c17_sites_covered`, `no_stale_accounts`,
+`unsafe_accounts_wellformed`, `c17_sites_covered`,
 `read_handler_total`, `read_handler_success_iff`, `events_drop_safe`,
 `unchecked_char_is_scalar`, `surrogate_pair_arith`, `bmp_unit_is_scalar`,
 `no_panic_encoding`, `arraybuffer_no_panic`, `consts_agree`,
@@ -82,11 +82,6 @@ def c17_sites : List Entry := Xt.Generated.sites.filter isC17
 
 theorem c17_sites_covered : uncovered c17_sites covered = [] :=
   Xt.Props.C04Sites.c17_sites_covered
-
-/-- No account is given for a key the sources do not have. -/
-theorem no_stale_accounts :
-    (covered.filter fun c => !Xt.Generated.sites.any fun e => sameKey e c) = [] :=
-  Xt.Props.C04Sites.no_stale_accounts
 
 /-- Theorems named in `covered` that live on a branch not merged yet. -/
 def pendingTheorems : List String := []
@@ -360,7 +355,6 @@ theorem detect_len_agrees (bytes : List Nat) :
 #print axioms unsafe_sites_covered
 #print axioms unsafe_accounts_wellformed
 #print axioms c17_sites_covered
-#print axioms no_stale_accounts
 #print axioms read_handler_total
 #print axioms read_handler_success_iff
 #print axioms events_drop_safe
